@@ -423,6 +423,44 @@ class C18Run(object):
             sim.fail('C18.wrong-endpoint', 'added %r but returned endpoint %r' % (new[0], got))
         if requested is not None and new[0] != requested:
             sim.fail('C18.wrong-port-added', 'requested %r, added %r' % (requested, new[0]))
+        if api == 'helper' and self.ch.chance(1, 2, 'secondrequest'):
+            self.second_request(vals)
+
+    def second_request(self, vals):
+        """the application asks for another port Tor does not have yet, on the same connection: Tor's listeners as they
+        are now (the first addition among them) are re-listed once each, plus the new one"""
+        import txtorcon.endpoints as tep
+        sim = self.sim
+        sim.probe('second-port-added-on-the-same-connection')
+        existing = list(self.co.values or [])
+        if existing != vals:
+            raise HarnessError('SimTor did not take over the first SETCONF: %r != %r' % (existing, vals))
+        requested = '41234' if not any('41234' in v for v in existing) else '41777'
+        n0 = len(self.setconfs)
+        res = []
+        d = tep._create_socks_endpoint(sim.reactor, self.proto, requested)
+        d.addCallbacks(lambda ep: res.append(('ok', ep)), lambda f: res.append(('err', f)))
+        n = 0
+        while n < 3000 and sim.step():
+            n += 1
+        sim.drain(max_steps=10000)
+        if len(res) != 1:
+            sim.fail('C18.result-count', 'the second endpoint request fired %d times' % len(res))
+        if res[0][0] != 'ok':
+            sim.fail('C18.endpoint-request-failed', 'second request, for SOCKS port %r, failed: %s (Tor has %r)' % (
+                requested, res[0][1].getErrorMessage()[:120], existing))
+        later = [items for items in self.setconfs[n0:] if any(k.lower() == 'socksport' for k, v in items)]
+        if len(later) != 1:
+            sim.fail('C18.port-not-added-in-one-setconf', 'second request, for %r (Tor has %r): expected exactly one SETCONF, got %r' % (
+                requested, existing, later))
+        vals2 = [v for k, v in later[0] if k.lower() == 'socksport']
+        if vals2[:len(existing)] != existing or len(vals2) < len(existing):
+            sim.fail('C18.existing-entries-not-preserved', 'second request: SETCONF re-lists SOCKSPort as %r but Tor has %r' % (vals2, existing))
+        if vals2[len(existing):] != [requested]:
+            sim.fail('C18.port-not-added-in-one-setconf', 'second request: SETCONF SOCKSPort values %r: expected the existing %r plus %r' % (
+                vals2, existing, requested))
+        if self.describe_ep(res[0][1]) != self.entry_addr(requested):
+            sim.fail('C18.wrong-endpoint', 'second request added %r but returned endpoint %r' % (requested, self.describe_ep(res[0][1])))
 
     # ------------------------------------------------------------------ part B
     def part_b(self):
